@@ -3,15 +3,15 @@ CONSTANTS
   Ids = {"A", "B", "C"}
   InitUp = {"A", "B"}
   Small = {}
-  Big = {"b1", "b2"}
+  Big = {}
   Fanout = 3
   TxLimit = 3
   SendList = "current"
   OnTimeout = "ready"
   OkayRequired = 3
-  Budgets = {0}
-  MaxStop = 1
-  MaxJoin = 1
+  Budgets = {0, 2, 6}
+  MaxStop = 2
+  MaxJoin = 2
   UOrder <- MCOrder
 VIEW View
 INVARIANTS Delivered Readiness Sane
